@@ -838,6 +838,11 @@ fn decode_case(len: usize, fb: u8, nc: usize, kind: u64, seed: u64, idx: u64) ->
                 if rs.is_ok() != r.is_ok() {
                     extra = Some(format!("serde form {} a string from_bytes {}", okerr(&rs), okerr(&r)));
                 }
+                // the same through a reader (a source the deserializer cannot borrow from)
+                let rr: Result<RangeProof<P>, _> = bincode::deserialize_from(std::io::Cursor::new(framed.clone()));
+                if rr.is_ok() != r.is_ok() {
+                    extra = Some(format!("serde form read from a stream {} a string from_bytes {}", okerr(&rr), okerr(&r)));
+                }
                 if let Ok(p) = &r {
                     if p.to_bytes() != bytes {
                         extra = Some("decoded proof re-encodes to different bytes".to_string());
@@ -888,6 +893,25 @@ pub fn run_case(c: &Value, seed: u64, idx: u64) -> (String, Option<String>) {
                     }
                 }
                 (okerr(&r).into(), extra)
+            },
+            "stmt_verify" => {
+                // a statement the constructor lets through must be safe to verify with (C16): an honest proof for the same
+                // commitments, then the tested promise count / capacity
+                let m = u("m");
+                let params = RangeParameters::<P>::init(4, u("cap"), pedersen_std(1)).unwrap();
+                let bl: Vec<Vec<Scalar>> = (0..m).map(|j| vec![hash_scalar(&[b"sv", &(j as u64).to_le_bytes()])]).collect();
+                let cs: Vec<P> = (0..m).map(|j| params.pc_gens().commit(&Scalar::from(3u64 + j as u64), &bl[j]).unwrap()).collect();
+                let honest = RangeStatement::init(params.clone(), cs.clone(), vec![None; m], None).unwrap();
+                let w = RangeWitness::init((0..m).map(|j| CommitmentOpening::new(3 + j as u64, bl[j].clone())).collect()).unwrap();
+                let mut rng = ChaCha12Rng::seed_from_u64(seed ^ idx);
+                let proof = RangeProof::<P>::prove_with_rng(&mut Transcript::new(b"sv"), &honest, &w, &mut rng).unwrap();
+                match RangeStatement::init(params, cs, vec![None; u("np")], None) {
+                    Err(_) => ("err".into(), None),
+                    Ok(st) => {
+                        let r = RangeProof::<P>::verify_batch(&mut [Transcript::new(b"sv")], &[st], &[proof], VerifyAction::VerifyOnly);
+                        (okerr(&r).into(), None)
+                    },
+                }
             },
             "wit" => {
                 let counts: Vec<usize> = c["counts"].as_array().unwrap().iter().map(|x| x.as_u64().unwrap() as usize).collect();
